@@ -528,16 +528,25 @@ func (sn *Snap) Digest() string {
 // Diff lists paths whose presence or bytes differ (files and dirs).
 func Diff(a, b *Snap) []string {
 	var out []string
+	// a symbolic link's own state is the text it holds (compared below, with the other odd entries); what a reader
+	// finds THROUGH it is the state of another file, and changes or vanishes with that file
+	link := func(sn *Snap, k string) bool { return strings.HasPrefix(sn.Odd[k], "symlink -> ") }
 	for k, v := range a.Files {
+		if link(a, k) {
+			continue
+		}
 		w, ok := b.Files[k]
-		if !ok {
+		if !ok || link(b, k) {
 			out = append(out, "-"+k)
 		} else if !bytes.Equal(v, w) {
 			out = append(out, "~"+k)
 		}
 	}
 	for k := range b.Files {
-		if _, ok := a.Files[k]; !ok {
+		if link(b, k) {
+			continue
+		}
+		if _, ok := a.Files[k]; !ok || link(a, k) {
 			out = append(out, "+"+k)
 		}
 	}
